@@ -5,6 +5,8 @@ pub mod c03;
 pub mod c05;
 pub mod c13;
 pub mod c15;
+pub mod c16;
+pub mod c17;
 
 pub type RunFn = fn(&Ctx);
 
@@ -14,4 +16,6 @@ pub const ALL: &[(&str, RunFn)] = &[
     ("C05", c05::run),
     ("C13", c13::run),
     ("C15", c15::run),
+    ("C16", c16::run),
+    ("C17", c17::run),
 ];
